@@ -84,6 +84,26 @@ def q(x):
     return c_Q(Fraction(x))
 
 
+def _capture_factory(serve):
+    """the protocol factory serve_rs / serve_us hands to the event loop (captured with a stub loop; nothing is bound)"""
+    import asyncio
+    from aiorpcx import RPCSession
+    got = {}
+
+    class StubLoop:
+        async def create_server(self, factory, *a, **kw):
+            got['f'] = factory
+
+        async def create_unix_server(self, factory, *a, **kw):
+            got['f'] = factory
+    coro = serve(RPCSession, loop=StubLoop())
+    try:
+        coro.send(None)
+    except StopIteration:
+        pass
+    return got['f']
+
+
 def message_session_send(cmd, payload_len):
     """MessageSession.send_message((command, payload)): how much is charged?"""
     from aiorpcx import session
@@ -510,6 +530,45 @@ class C14(Prop):
                                        f"a protocol violation raised the error count by {v['d_errors']} and the cost by {v['d_cost']:.3f}: "
                                        f"every protocol violation counts as one error and costs at least the base error cost ({vobs['error_base_cost']})"))
                     break
+        # "a client session is never throttled or refused": the sessions the library's own connectors make (connect_rs, connect_us)
+        # are client sessions whatever their cost; the ones its servers make (serve_rs, serve_us) are limited
+        import asyncio as _aio
+        from harness import sessions as _sessions
+        from harness.vloop import FakeTransport as _FT
+        from aiorpcx import rawsocket as _rs, unixsocket as _us, RPCSession as _RPCSession
+        from aiorpcx.session import SessionKind as _SK
+        for name, factory_of, want_client in (
+                ('connect_rs', lambda: _rs.connect_rs('localhost', 1).protocol_factory, True),
+                ('connect_us', lambda: _us.connect_us('/nonexistent').protocol_factory, True),
+                ('serve_rs', lambda: _capture_factory(_rs.serve_rs), False),
+                ('serve_us', lambda: _capture_factory(_us.serve_us), False)):
+            loop = _sessions.new_loop()
+            try:
+                async def mk():
+                    proto = factory_of()()
+                    ft = _FT(proto)
+                    proto.connection_made(ft)
+                    s = proto.session
+                    await _sessions.settle(3)
+                    c0 = s._incoming_concurrency.max_concurrent
+                    s.bump_cost(s.__class__.cost_hard_limit * 0.75)
+                    s.recalc_concurrency()
+                    mid = (s._incoming_concurrency.max_concurrent, s._cost_fraction)
+                    s.bump_cost(s.__class__.cost_hard_limit * 2)
+                    s.recalc_concurrency()
+                    return {'kind': s.session_kind.name, 'initial': c0, 'at_three_quarters': list(mid),
+                            'beyond_hard_limit': [s._incoming_concurrency.max_concurrent, s._cost_fraction]}
+                o = loop.run_until_complete(mk())
+            finally:
+                _sessions.close_loop(loop)
+            ctx['extra_evals'] += 1
+            limited = o['beyond_hard_limit'][0] == 0 and o['at_three_quarters'][0] < o['initial']
+            untouched = o['beyond_hard_limit'] == [o['initial'], 0.0] and o['at_three_quarters'] == [o['initial'], 0.0]
+            if (want_client and (o['kind'] != 'CLIENT' or not untouched)) or (not want_client and (o['kind'] != 'SERVER' or not limited)):
+                out.append(Failure({'kind': 'connector_session_kind', 'made_by': name}, o,
+                                   f"a session made by {name} is {'a client session: never throttled or refused' if want_client else 'a server session: throttled between the limits, refused beyond'}"
+                                   f"; observed kind {o['kind']}, concurrency {o['initial']} -> {o['at_three_quarters'][0]} -> {o['beyond_hard_limit'][0]}"))
+        ctx['notes'].append('sessions made by connect_rs / connect_us / serve_rs / serve_us: kind and throttling at 75% and 200% of the hard limit')
         nf = 0
         for transport in ('rs', 'us'):
             fobs = self.failing_requests_scenario(transport)
